@@ -3,17 +3,17 @@ from specs.common import run, ASSUME_COMMON
 SPEC = {
     "runs": [
         # sequential histories against the metrics reference model M
-        run("e1-histories", "c06_counter_conservation", "asan", 6000, 100000, need_lib=True),
+        run("e1-histories", "c06_counter_conservation", "asan", 6000, 300000, need_lib=True),
         # recorder threads racing collector threads, TSan + perturbation shim
-        run("e2-record-vs-collect", "c06_counter_conservation", "tsan", 400, 8000, need_lib=True,
+        run("e2-record-vs-collect", "c06_counter_conservation", "tsan", 400, 30000, need_lib=True,
             params={"mode": "conc"}),
     ],
     "floors": {
         "quick": {"hist_single_delta_reader_fastpath": 300, "hist_multi_reader_mixed": 300, "hist_second_handle": 300,
                   "hist_second_view_stream": 300, "conc_runs_collect_overlapped_ge10_adds": 50},
-        "thorough": {"hist_single_delta_reader_fastpath": 5000, "hist_multi_reader_mixed": 5000,
-                     "hist_second_handle": 5000, "hist_second_view_stream": 5000,
-                     "conc_runs_collect_overlapped_ge10_adds": 1500},
+        "thorough": {"hist_single_delta_reader_fastpath": 15000, "hist_multi_reader_mixed": 15000,
+                     "hist_second_handle": 15000, "hist_second_view_stream": 15000,
+                     "conc_runs_collect_overlapped_ge10_adds": 5000},
     },
     "engine": "E1 model-oracle",
     "engines_used": ("E1 model-oracle", "E2 history"),
